@@ -133,10 +133,11 @@ class ExpectedResponse(asyncio.Future):
                     actual_value = getattr(response, fname)
                 except AttributeError:
                     return False
-                else:
-                    return expected_value(actual_value)
 
-            if getattr(response, fname, None) != expected_value:
+                if not expected_value(actual_value):
+                    return False
+
+            elif getattr(response, fname, None) != expected_value:
                 return False
 
         return True
